@@ -537,4 +537,91 @@ theorem dotenv_refs_above (above earlier out : Env) (k : Str) (t : List Template
       | _ => .error () := fileLayer_value above earlier out k t ls h
 
 
+/-! ## non-vacuity: concrete worlds on which the hypotheses of the theorems hold -/
+
+def fa : List (Str × Str) := [("V".toList, "a".toList), ("R".toList, "$V".toList), ("X".toList, "1".toList)]
+def fb : List (Str × Str) := [("X".toList, "2".toList), ("S".toList, "$X$R".toList)]
+def ft : List (Str × Str) := [("D".toList, "top".toList)]
+
+/-- directory 0 holds the files handed to `NewProjectOptions`; directory 2 (`sub`, the process directory) is a
+    child of directory 1 (`Top`), which holds default-named compose files and a `.env` -/
+def mkW (os : List String) (given : List CfgRef) (n1 n2 : Str) (dir0 : Str) : World where
+  dirs := [{ name := dir0, files := [("c1".toList, [some n1]), ("c2".toList, [some n2])] },
+           { name := "Top".toList, dotEnv := some (.file (renderSimple ft)),
+             files := [("docker-compose.yml".toList, [none]), ("compose.yaml".toList, [some "top".toList]),
+                       ("compose.override.yml".toList, [none])] },
+           { name := "sub".toList, parent := some 1 }]
+  cwd := 2
+  given := given
+  paths := [("x.yaml".toList, { dir := 1, file := some "compose.yaml".toList })]
+  os := strs os
+  envFiles := [("a".toList, .file (renderSimple fa)), ("b".toList, .file (renderSimple fb))]
+  probe := "$V$X".toList
+
+def g12 : List CfgRef := [{ dir := 0, file := some "c1".toList }, { dir := 0, file := some "c2".toList }]
+def exW : World := mkW ["COMPOSE_PROJECT_NAME=os", "V=o"] g12 "f1".toList "F.2".toList "My.Dir".toList
+
+theorem la (os : List String) (g : List CfgRef) (n1 n2 d : Str) :
+    lookupFile (mkW os g n1 n2 d) (.named "a".toList) = some (.file (renderSimple fa)) := by rfl
+theorem lb (os : List String) (g : List CfgRef) (n1 n2 d : Str) :
+    lookupFile (mkW os g n1 n2 d) (.named "b".toList) = some (.file (renderSimple fb)) := by rfl
+theorem lt (os : List String) (g : List CfgRef) (n1 n2 d : Str) :
+    lookupFile (mkW os g n1 n2 d) (.default 1) = some (.file (renderSimple ft)) := by rfl
+
+/-- unfold a concrete run down to the grammar evaluator (the scanner is replaced through `parse_render`) -/
+macro "eval_run" : tactic => `(tactic|
+  (simp only [exW, run, runOpts, applyOpt, withEnvFiles, strs, List.map, getEnvFromFile, la, lb, lt,
+     parseFile_renderSimple _ fa (by decide), parseFile_renderSimple _ fb (by decide),
+     parseFile_renderSimple _ ft (by decide)]))
+
+def exDoc : List Opt := [.withEnv (strs ["Y=e"]), .withOsEnv, .withEnvFiles (strs ["a", "b"]), .withDotEnv]
+
+def nameOf (r : Except Err Loaded) : Option String := r.toOption.map (fun l => String.ofList l.name)
+def errOf (r : Except Err Loaded) : Option Err := match r with | .error e => some e | .ok _ => none
+def varOf (k : String) (r : Except Err Loaded) : Option String := r.toOption.bind (fun l => (l.env.get k.toList).map String.ofList)
+
+-- explicit name over COMPOSE_PROJECT_NAME over file over directory
+example : nameOf (run exW (.withName "ex".toList :: exDoc)) = some "ex" := by eval_run; decide
+example : nameOf (run exW exDoc) = some "os" := by eval_run; decide
+example : nameOf (run (mkW ["V=o"] g12 "f1".toList "F.2".toList "My.Dir".toList) exDoc) = some "f2" := by eval_run; decide
+example : nameOf (run (mkW [] g12 [] [] "My.Dir".toList) exDoc) = some "mydir" := by eval_run; decide
+-- a file name that normalises to empty falls through to the directory, not to the earlier file
+example : nameOf (run (mkW [] g12 "f1".toList "_.".toList "My.Dir".toList) exDoc) = some "mydir" := by eval_run; decide
+-- invalid requests are rejected; nothing yields a name
+example : errOf (run exW (exDoc ++ [.withName "Ex".toList])) = some .invalidName := by eval_run; decide
+example : errOf (run (mkW ["COMPOSE_PROJECT_NAME=a.b"] g12 [] [] "d".toList) exDoc) = some .invalidName := by eval_run; decide
+example : errOf (run (mkW [] g12 [] [] "日本".toList) exDoc) = some .emptyName := by eval_run; decide
+-- environment: explicit over OS over later file over earlier file; references see the variables above
+example : varOf "V" (run exW (.withEnv (strs ["V=e"]) :: exDoc)) = some "e" := by eval_run; decide
+example : varOf "V" (run exW (exDoc ++ [.withEnv (strs ["V=e"])])) = some "e" := by eval_run; decide
+example : varOf "V" (run exW exDoc) = some "o" := by eval_run; decide
+example : varOf "X" (run exW exDoc) = some "2" := by eval_run; decide
+example : varOf "R" (run exW exDoc) = some "o" := by eval_run; decide     -- `$V` in file a: the OS value, not the file's own
+example : varOf "S" (run exW exDoc) = some "1o" := by eval_run; decide    -- `$X`: the EARLIER FILE's value, `$R`: file a's
+example : varOf "COMPOSE_PROJECT_NAME" (run exW exDoc) = some "os" := by eval_run; decide
+example : (run exW exDoc).toOption.map (fun l => String.ofList l.probe) = some "o2" := by eval_run; decide
+-- which files are loaded: nothing given → COMPOSE_FILE of the project environment, else the default names upward
+example : errOf (run (mkW [] [] [] [] []) exDoc) = some .noConfig := by eval_run; decide
+example : nameOf (run (mkW [] [] [] [] []) [.withDefaultConfigPath]) = some "top" := by eval_run; decide
+example : (runOpts (mkW [] [] [] [] []) [.withDefaultConfigPath] {}).toOption.map (·.configs) =
+    some [{ dir := 1, file := some "compose.yaml".toList }, { dir := 1, file := some "compose.override.yml".toList }] := by
+  eval_run; decide
+example : nameOf (run (mkW ["COMPOSE_FILE=x.yaml"] [] [] [] []) [.withOsEnv, .withConfigFileEnv]) = some "top" := by eval_run; decide
+example : errOf (run (mkW ["COMPOSE_FILE=x.yaml:nope.yaml"] [] [] [] []) [.withOsEnv, .withConfigFileEnv]) = some .configNotFound := by
+  eval_run; decide
+-- COMPOSE_FILE is read when the option runs: before WithOsEnv it is not there yet
+example : errOf (run (mkW ["COMPOSE_FILE=x.yaml"] [] [] [] []) [.withConfigFileEnv, .withOsEnv]) = some .noConfig := by eval_run; decide
+-- given files win over both
+example : nameOf (run (mkW ["COMPOSE_FILE=x.yaml"] g12 "f1".toList [] "d".toList) [.withOsEnv, .withConfigFileEnv, .withDefaultConfigPath]) = some "f1" := by
+  eval_run; decide
+-- the default `.env` is the one of the project directory the selection implies (directory 1 here)
+example : varOf "D" (run (mkW [] [] [] [] []) [.withDefaultConfigPath, .withEnvFiles [], .withDotEnv]) = some "top" := by eval_run; decide
+-- the hypotheses of `env_precedence_documented_order` / `dotenv_later_over_earlier` / `dotenv_refines_spec` are satisfiable
+example : (∀ x ∈ exDoc.dropLast, x ≠ Opt.withDotEnv) ∧ (runOpts exW (exDoc.dropLast ++ [.withDotEnv]) {}).toOption.isSome = true := by
+  refine ⟨by decide, ?_⟩; eval_run; decide
+example : [fa, fb].all (fun ls => ls.all simpleOk) = true := by decide
+example : (dotenvLayers (strs ["V=o"] |> asEqualsMap) [fa, fb] []).toOption.map (fun ls => (Env.get ls.flatten "S".toList)) = some (some "1o".toList) := by decide
+-- an undocumented order: `WithDotEnv` before `WithOsEnv` lets the file value win (covered by `env_any_option_order`)
+example : varOf "V" (run exW [.withEnvFiles (strs ["a"]), .withDotEnv, .withOsEnv]) = some "a" := by eval_run; decide
+
 end CV.Name
